@@ -30,7 +30,7 @@ for sid in sorted(os.listdir(os.path.join(V, "seeded"))):
     anyc += 1 if m["fired"] else 0
     fired = ", ".join(m["fired"]) or "**none**"
     k = int(sid.split("-")[1])
-    rnd = 1 if k <= 2 else (2 if k <= 5 else (3 if k <= 7 else (4 if k <= 9 else 5)))
+    rnd = m.get("round") or (1 if k <= 2 else (2 if k <= 5 else (3 if k <= 7 else (4 if k <= 9 else 5))))
     per_round.setdefault(rnd, [0, 0, 0])
     per_round[rnd][0] += 1
     per_round[rnd][1] += 1 if m["detected_by_own_property"] else 0
